@@ -13,6 +13,7 @@ SETUP = [
     "hof = fn(g: fn(str) -> int) -> int {", "\treturn g(\"a\")", "}",
     "const fx = [1, \"a\"]",
     "fl = 1.5", "by = 0b1", "bg = B1",
+    "if b == b {", "}",      # the set-up ends with a block: a fault that starts with `[` or `(` must not be read as a postfix of the previous line
 ]
 CLASS = ["class K {", "\tv: int", "\tconstructor(self, v: int) {", "\t\tself.v = v", "\t}", "\tfn mm(self, a: int) -> int {",
          "\t\treturn a + self.v", "\t}", "}", "type A int"]
@@ -302,6 +303,8 @@ class C03(Check):
                 # a grammar word in an expression position is a syntax error; the parser reports it at the token where it
                 # gave up, which may be the first token of the following line
                 slack = 1 if fault.startswith("unknown-name:") and not fault.startswith("unknown-name:qq:") else 0
+                if slack and host == "fn-commented":
+                    slack = 3          # comment lines may lie between the statement and the next token
                 ok = any(os_base(f) == ffile and l1 <= int(ln) <= l2 + slack for f, ln, _ in locs)
                 if not ok:
                     bad("wrong-position", f"edited statement is at {ffile}:{l1}-{l2}; diagnostics point at {[(os_base(f), int(ln)) for f, ln, _ in locs][:4]}")
